@@ -62,6 +62,12 @@ def child(mod, prop, tier, seed, spec, out):
     common.setup_repo_path()
     common.EVENTS.install()
     sys.setrecursionlimit(20000)
+    # Finalisers of dd.autoref.Function objects must not run in the
+    # middle of a ledger comparison: the automatic cyclic collector is
+    # off in shard processes; the drivers collect explicitly at
+    # quiescent points.
+    import gc
+    gc.disable()
     ctx = common.Ctx(prop, tier, seed, spec)
     rc = 0
     try:
